@@ -255,6 +255,21 @@ func init() {
 			{ID: "c0", In: []Label{{"", 0, ""}}, Out: []Label{{"", TP0, ""}}, InForm: FormPositional, OutForm: FormPositional},
 			{ID: "c0", In: []Label{{"", TP1, ""}}, Out: []Label{{"", 0, ""}}, InForm: FormPositional, OutForm: FormPositional},
 		}
+		// the original function's last result is of a concrete error type (an ordinary
+		// output), and the inner call of the redefined function fails
+		for _, outs := range [][]Label{{{"", TE, ""}}, {{"", 2, ""}, {"", TE, ""}}} {
+			for _, hasErr := range []bool{false, true} {
+				for _, f := range [][]int{nil, {1}} {
+					s := Scenario{Mode: "redefine",
+						Target: FuncSpec{ID: "tgt", In: []Label{{"", 0, ""}}, InForm: FormPositional, Out: outs, OutForm: FormPositional, HasErr: hasErr},
+						Convs:  []FuncSpec{{ID: "c0", In: []Label{{"", 1, ""}}, Out: []Label{{"", 0, ""}}, InForm: FormPositional, OutForm: FormPositional, HasErr: true, Fails: true}}}
+					if f != nil {
+						s.HasFilter, s.FilterIn = true, f
+					}
+					emit(s)
+				}
+			}
+		}
 		filters := [][]int{nil, {TP0}, {TP1}, {0}, {TP0, TP1}, {0, TP0, TP1}}
 		// a converter reached through a named input that also takes an interface-typed
 		// type-only field (outside C08's single-input premise: judged by C06 only)
